@@ -20,8 +20,26 @@ package rules
 
 // own_s := what the rule itself defines for stage s (result of the pipeline builders, logged);
 // the effective stage is own_s when non-empty, else the default rule's, else empty.
+// factory invariant: without a default rule the inherited backtracking flag is off. Established by the
+// only constructor (NewRuleFactory, below); the three fields are init-only (see above).
+//@ func (*ruleFactory).initWithDefaultRule
+//@   props C14 C08
+//@   requires f.defaultRule == nil && !f.defaultBacktracking
+//@   ensures ret0 == nil ==> (f.defaultRule == nil ==> !f.defaultBacktracking)
+//@   ensures ret0 == nil && ruleConfig == nil ==> f.defaultRule == nil
+//@   ensures ret0 == nil && ruleConfig != nil ==> f.defaultRule != nil && f.defaultBacktracking == old(ruleConfig.BacktrackingEnabled)
+//@   ensures ret0 == nil && ruleConfig != nil ==> f.defaultRule.isDefault && f.defaultRule.slashesHandling == config2.EncodedSlashesOff && len(f.defaultRule.sc) > 0
+//@   ensures ret0 == nil && ruleConfig != nil ==> f.defaultRule.sc == pipe.ret0[old(pipe.n)] && f.defaultRule.sh == pipe.ret1[old(pipe.n)] && f.defaultRule.fi == pipe.ret2[old(pipe.n)] && f.defaultRule.eh == onerr.ret0[old(onerr.n)]
+
+//@ func NewRuleFactory
+//@   props C14
+//@   ensures ret1 == nil ==> typeIs(ret0, *ruleFactory) && unbox(ret0, *ruleFactory) != nil
+//@   ensures ret1 == nil ==> (unbox(ret0, *ruleFactory).defaultRule == nil ==> !unbox(ret0, *ruleFactory).defaultBacktracking)
+//@   ensures ret1 == nil ==> unbox(ret0, *ruleFactory).mode == mode
+
 //@ func (*ruleFactory).CreateRule
 //@   props C14
+//@   requires f.defaultRule == nil ==> !f.defaultBacktracking
 //@   watch old(f.defaultRule)
 //@   watch old(f.defaultBacktracking)
 //@   watch ruleConfig.Matcher.BacktrackingEnabled
